@@ -239,6 +239,22 @@ CLAIMED: dict[str, tuple[str, str, str, str]] = {
             "and loops around loop-sensitive rules are not generated; file-placement has no source examples "
             "(C18 covers its rules).",
             TECH),
+    "C12": ("DESIGN.md §5 C12",
+            "spec/Location.tla enumerates all 864 layouts of a probe file (0..2 lead lines, a neutral item first, "
+            "0..2 enclosing frames, 0..2 decorator / attribute lines, split or one-line header / call / expression, "
+            "LF or CRLF, final newline or not, code after the construct or not), fixes the construct's line range "
+            "(Top / Lo / Hi) and the verdict of a reported violation (FileInRun, LineInFile, ColumnInLine, "
+            "ConstructLine, QuotedOnLine, CitedLocation) and checks the laws of that verdict on every layout; 24 "
+            "construct templates (13 Python, 5 TypeScript, 6 Rust; one per reporting linter incl. multi-line call "
+            "chains with a short receiver line) are rendered under the layouts (all in the thorough tier), linted, "
+            "and LocationTrace.tla judges every reported violation from facts measured on the bytes of the linted "
+            "file (renderer's Top cross-checked); the layout-independent clauses are also judged on every "
+            "catalogued documented example as is / CRLF / no final newline / leading blank lines and on DRY pairs "
+            "holding the same code in six different layouts in both file orders.",
+            "Columns are compared in UTF-8 bytes; for a multi-line call any line from the statement's first line to "
+            "the method name is accepted; the quoted name is the reported construct's own name; quick tier samples "
+            "70 layouts per template.",
+            TECH),
 }
 
 REASON_NOT_YET = ("no check registered yet in this build; the TLA+ technique applies (see DESIGN.md §5) "
